@@ -104,6 +104,24 @@ def extra_edits(root, rnd, kind):
             g = ET.SubElement(parent, "group", name="NoVerifL%d" % lvl, required="N")
             ET.SubElement(g, "field", name="VerifL%dVal" % lvl, required=rnd.choice(["Y", "N"]))
             parent = g
+    elif kind == "samegroup":
+        # two components that each declare a group of the same name with different members (the later definition wins, every time)
+        fields = root.find("fields")
+        nums = {f.get("number") for f in fields}
+        free = (str(k) for k in range(5000, 9000) if str(k) not in nums)
+        ET.SubElement(fields, "field", number=next(free), name="NoVerifItems", type="NUMINGROUP")
+        for nm in ("VerifItemA", "VerifItemB", "VerifItemC"):
+            ET.SubElement(fields, "field", number=next(free), name=nm, type="STRING")
+        comps = root.find("components")
+        for cname, members in (("VerifOne", ["VerifItemA", "VerifItemB"]), ("VerifTwo", ["VerifItemC", "VerifItemA"]), ("VerifThree", ["VerifItemB"])):
+            c = ET.SubElement(comps, "component", name=cname)
+            g = ET.SubElement(c, "group", name="NoVerifItems", required="N")
+            for m in members:
+                ET.SubElement(g, "field", name=m, required="N")
+        msgs = root.find("messages")
+        m = ET.SubElement(msgs, "message", name="VerifSame", msgtype="ZS", msgcat="app")
+        for cname in ("VerifOne", "VerifTwo", "VerifThree"):
+            ET.SubElement(m, "component", name=cname, required="N")
     elif kind == "addmessage":
         msgs = root.find("messages")
         ET.SubElement(msgs, "message", name="VerifMsg", msgtype="ZV", msgcat="app")
@@ -184,8 +202,8 @@ def check(prop, tier, seed):
         p = os.path.join(xdir, "variant-%d.xml" % i)
         ET.ElementTree(root).write(p)
         jobs.append((gendrv, fixgen, p, types, "variant-%d:%s" % (i, "+".join(e["op"] for e in sc_["script"]) or "none"), sc_["accept"], None, True))
-    for i in range(12 if quick else 96):
-        kind = ["rename", "addfield", "addmessage", "typemap", "moveframing", "deepgroup"][i % 6]
+    for i in range(14 if quick else 98):
+        kind = ["rename", "addfield", "addmessage", "typemap", "moveframing", "deepgroup", "samegroup"][i % 7]
         p = os.path.join(xdir, "extra-%d.xml" % i)
         tp = small_t
         if kind == "typemap":
